@@ -7,9 +7,9 @@ package main
 // transactions through DeliverTx for every message type, signed by the creator and by another key.
 
 import (
-	"math/big"
 	"encoding/hex"
 	"fmt"
+	"math/big"
 	"math/rand"
 	"reflect"
 	"sort"
@@ -22,9 +22,9 @@ import (
 	"github.com/cosmos/cosmos-sdk/types/tx/signing"
 	authsigning "github.com/cosmos/cosmos-sdk/x/auth/signing"
 	"github.com/jackalLabs/canine-chain/v4/app"
+	"github.com/jackalLabs/canine-chain/v4/wasmbinding"
 	oracletypes "github.com/jackalLabs/canine-chain/v4/x/oracle/types"
 	sttypes "github.com/jackalLabs/canine-chain/v4/x/storage/types"
-	"github.com/jackalLabs/canine-chain/v4/wasmbinding"
 	abci "github.com/tendermint/tendermint/abci/types"
 )
 
